@@ -176,6 +176,9 @@ func hC07Vector(kind int) {
 			var v []float32
 			if kind == vKFlat && i < 1 {
 				v = vVec(vName("v", i), dim) // symbolic payload
+				for _, x := range v {
+					vAssume(vFinite32(x)) // finite vectors (a NaN distance has no rank: the answer would hang on map iteration order)
+				}
 			} else {
 				v = vCopy(vConcreteVecs[i])
 			}
@@ -190,6 +193,9 @@ func hC07Vector(kind int) {
 	var q []float32
 	if kind == vKFlat {
 		q = vVec("q", dim)
+		for _, x := range q {
+			vAssume(vFinite32(x))
+		}
 	} else {
 		q = vCopy([][]float32{{0.5, 0.25}, {4, 4}, {-1, 3}}[vChoose("query", 3)])
 		if metric == Euclidean {
